@@ -393,3 +393,21 @@ Print Assumptions C10_plain_index_get_loc.
 Theorem C10_plain_span_ok (ls : list label) : span_ok (fun l => plain_get_loc l) (SPandas ls).
 Proof. exact (plain_span_ok ls). Qed.
 Print Assumptions C10_plain_span_ok.
+
+(* ---------- end to end: a label-slice write, then reads by label — exactly the addressed periods changed ---------- *)
+Theorem C10_slice_write_then_label_reads (V : Type) (lc : label -> outcome loc) (st : cstate V) (name : string) (sr : series V)
+        (a b : option label) (s : option Z) (pa pb : nat) (v : V) :
+  locate_spec (span_labels (c_span st)) lc ->
+  lookup name (c_vars st) = Some sr ->
+  List.length (s_data sr) = List.length (span_labels (c_span st)) ->
+  NoDup (span_labels (c_span st)) ->
+  start_pos (span_labels (c_span st)) a = Some pa -> stop_pos (span_labels (c_span st)) b = Some pb -> 0 < step_of s ->
+  exists st', set_item_with lc st name (KSlice a b s) (OScalar v) = (st', Ret tt)
+    /\ c_span st' = c_span st
+    /\ forall x p, pos x (span_labels (c_span st)) = Some p ->
+         ((exists i : nat, Z.of_nat p = Z.of_nat pa + Z.of_nat i * step_of s /\ (p <= pb)%nat) ->
+            get_item_with lc st' name (KLabel x) = Ret (RScalar v))
+         /\ (~ (exists i : nat, Z.of_nat p = Z.of_nat pa + Z.of_nat i * step_of s /\ (p <= pb)%nat) ->
+               forall old, nth_error (s_data sr) p = Some old -> get_item_with lc st' name (KLabel x) = Ret (RScalar old)).
+Proof. exact (@slice_write_then_label_reads V lc st name sr a b s pa pb v). Qed.
+Print Assumptions C10_slice_write_then_label_reads.
